@@ -50,10 +50,16 @@ HM = "std::collections::hash::map::HashMap::"
 EFFECT_PRIMS = ("get", "get_mut", "remove", "insert", "entry")
 
 
+CELL_HOME = {"self": 41000, "parent": 41001, "grandparent": 41002}
+
+
 def scope_model(F, placement, conflict=False):
-    """three-scope chain self -> parent -> grandparent with T held by at most one of them, and the
-    oracle that answers the HashMap primitives on the scopes' maps"""
-    from absint import Sym, TOP, some, NONE, ok, err, std_oracle, chain
+    """three-scope chain self -> parent -> grandparent, T held by any subset of them, and the oracle that answers the
+    HashMap primitives on the scopes' maps.  The maps are STATEFUL (one key, T::id()): which scopes hold T is path state
+    (mstate['maps_have']), the cells live in the root frame (CELL_HOME) so that `get_mut` hands out a place that can be
+    written through, and insert / remove update both - what an operation did to the maps is read off the final state,
+    not off the primitives it happened to use."""
+    from absint import Sym, Ref, TOP, some, NONE, ok, err, std_oracle, chain
     map_idx = F.field_index(REG, "map")
     parent_idx = F.field_index(REG, "parent")
     order = ["self", "parent", "grandparent"]
@@ -64,23 +70,41 @@ def scope_model(F, placement, conflict=False):
     holder = PLACEMENTS[placement]
     holders = HOLDERS[placement]
 
+    def ld(interp, env, v, n=0):
+        while isinstance(v, Ref) and n < 5:
+            v = interp.read_ref(env, v)
+            n += 1
+        return v
+
     def oracle(interp, env, f, args, t, bb, path):
         k = f.get("key", "")
-        a0 = args[0] if args else TOP
+        a0 = ld(interp, env, args[0]) if args else TOP
         if k.startswith(HM) and isinstance(a0, Sym) and a0.tag.endswith(".map"):
             sc = a0.tag[:-4]
             nm = f.get("name")
-            has = sc in holders
+            have = interp.mstate.get("maps_have", holders)
+            has = sc in have
+            cell = Ref(CELL_HOME[sc], [], frame="root")
             if nm == "contains_key":
                 return has
-            if nm in ("get", "get_mut", "remove"):
-                return some(Sym("cell@" + sc)) if has else NONE
-            if nm == "insert":
-                return some(Sym("cell@" + sc)) if has else NONE
+            if nm in ("get", "get_mut"):
+                return some(cell) if has else NONE
+            if nm == "remove":
+                if not has:
+                    return NONE
+                v = interp.read_ref(env, cell)
+                interp.mstate["maps_have"] = tuple(x for x in have if x != sc)
+                return some(v)
+            if nm == "insert" and len(args) == 3:
+                old = interp.read_ref(env, cell) if has else None
+                interp.write_ref(env, cell, args[2])
+                if not has:
+                    interp.mstate["maps_have"] = tuple(sorted(set(have) | {sc}, key=order.index))
+                return some(old) if has else NONE
             if nm == "entry":
                 return Sym("entry@" + sc)
         if f.get("name") in ("as_deref", "as_deref_mut") and f.get("self_adt") == "core::option::Option":
-            return a0
+            return args[0]
         if k == "better_any::Tid::id":
             return Sym("T::id")
         # no borrow conflicts in this model (C02 owns those); downcasts to the stored type succeed
@@ -105,6 +129,8 @@ def placement_eval(F, fn, placement, extra_args=(), conflict=False, want_paths=F
     args = args[:fn.body.argc] + [TOP] * max(0, fn.body.argc - len(args))
     from collmodel import install as _cm_install
     it = _cm_install(Interp(fn.body, oracle, args, facts=F, inline=lambda k: k.startswith("mahf::state::registry::") or k.startswith("<mahf::state::registry::")))
+    it.extra_env = {CELL_HOME[sc]: Sym("cell@" + sc) for sc in ORDER}
+    it.init_state = {"maps_have": HOLDERS[placement]}
     paths = it.run()
     prims = set()
     rets = set()
@@ -133,37 +159,61 @@ def placement_eval(F, fn, placement, extra_args=(), conflict=False, want_paths=F
     return prims, rets, ends
 
 
+def map_changes(paths, placement):
+    """what the operation did to the scopes' maps, read off the final state of every completed path: (scope, 'inserted' |
+    'removed' | 'replaced')"""
+    from absint import Sym
+    out = set()
+    before = set(HOLDERS[placement])
+    for p in paths:
+        if p.end != "return":
+            continue
+        after = set(p.mstate.get("maps_have", HOLDERS[placement]))
+        for sc in ORDER:
+            if sc in after and sc not in before:
+                out.add((sc, "inserted"))
+            elif sc in before and sc not in after:
+                out.add((sc, "removed"))
+            elif sc in after and p.env.get(CELL_HOME[sc]) != Sym("cell@" + sc):
+                out.add((sc, "replaced"))
+    return out
+
+
 def expected_effects(op, placement):
-    """the stack-of-typed-maps model: which map's primitive an operation may apply, and its result class"""
+    """the stack-of-typed-maps model: (changes to the maps, scopes whose cell the operation must reach, result class)"""
     h = PLACEMENTS[placement]
+    hs = HOLDERS[placement]
     if op == "contains_at_top":
-        return set(), {(h == "self", None)}
+        return set(), None, {(h == "self", None)}
     if op in ("find", "find_mut"):
-        return set(), {("Ok", h)} if h else {("Err", None)}
+        return set(), None, {("Ok", h)} if h else {("Err", None)}
     if op == "contains":
-        return set(), {(h is not None, None)}
+        return set(), None, {(h is not None, None)}
     if op == "insert":
-        return {("insert", "self.map")}, None
+        return {("self", "replaced" if "self" in hs else "inserted")}, None, {("Some", None), ("Some", "T:box:cell@self")} if "self" in hs else {("None", None)}
     if op == "remove":
         # the removed value is the content of the holder's cell (shown when the interpreter can follow the unboxing)
-        return ({("remove", h + ".map")}, {("Ok", None), ("Ok", "T:box:cell@" + h)}) if h else (set(), {("Err", None)})
+        return ({(h, "removed")}, None, {("Ok", None), ("Ok", "T:box:cell@" + h)}) if h else (set(), None, {("Err", None)})
     if op in ("try_borrow", "try_borrow_mut", "try_get_value", "try_borrow_value", "try_borrow_value_mut"):
-        return ({("get", h + ".map")}, None) if h else (set(), {("Err", None)})
+        return (set(), h, None) if h else (set(), None, {("Err", None)})
     if op in ("borrow", "borrow_mut", "get_value", "borrow_value", "borrow_value_mut"):
-        return ({("get", h + ".map")}, None) if h else (set(), None)
+        return (set(), h, None)
     if op == "take":
-        return ({("remove", h + ".map")}, None) if h else (set(), None)
+        return ({(h, "removed")}, None, None) if h else (set(), None, None)
     if op == "set_value":
-        return ({("get", h + ".map")}, {("Some", None)}) if h else (set(), {("None", None)})
+        return (set(), h, {("Some", None)}) if h else (set(), None, {("None", None)})
     if op == "get_mut":
-        return ({("get_mut", h + ".map")}, None) if h else (set(), {("None", None)})
+        return (set(), h, None) if h else (set(), None, {("None", None)})
     if op == "entry":
-        return {("entry", (h or "self") + ".map")}, None
-    return None, None
+        return set(), None, None
+    return None, None, None
 
 
 def r2b_placements(ctx):
-    """K6: every registry operation evaluated over the four placements of T in a three-scope chain"""
+    """K6: every registry operation evaluated over the eight placements of T in a three-scope chain.  Compared with the
+    stack of typed maps: (a) what the operation leaves in the scopes' maps (final state, however it got there), (b) that
+    the only cell it reaches is the innermost holder's - it never looks into the cell of a shadowed holder - and
+    (c) the class of its result."""
     F = ctx.facts
     ops = ["contains_at_top", "find", "find_mut", "contains", "insert", "remove", "take", "try_borrow", "try_borrow_mut", "borrow", "borrow_mut",
            "try_get_value", "get_value", "try_borrow_value", "borrow_value", "try_borrow_value_mut", "borrow_value_mut", "set_value", "get_mut", "entry"]
@@ -171,23 +221,34 @@ def r2b_placements(ctx):
     for op in ops:
         fn = F.fn(R + op)
         for placement in PLACEMENTS:
-            prims, rets, ends = placement_eval(F, fn, placement)
-            effects = {(nm, m) for (nm, m) in prims if nm in EFFECT_PRIMS}
-            want_eff, want_ret = expected_effects(op, placement)
+            prims, rets, ends, paths = placement_eval(F, fn, placement, want_paths=True)
+            changes = map_changes(paths, placement)
+            want_changes, must_reach, want_ret = expected_effects(op, placement)
+            h = PLACEMENTS[placement]
+            # cells reached: get / get_mut / remove / insert / entry on a scope's map (contains_key reaches no cell)
+            reached = {m[:-4] for (nm, m) in prims if nm in EFFECT_PRIMS and m.endswith(".map")}
+            entries = {m[:-4] for (nm, m) in prims if nm == "entry" and m.endswith(".map")}
+            shadowed = set(HOLDERS[placement]) - ({h} if op != "insert" else {"self"})
             n += 1
-            okk = effects == want_eff
+            why = []
+            if changes != want_changes:
+                why.append("leaves the maps changed by %s (expected %s)" % (sorted(changes), sorted(want_changes)))
+            if reached & shadowed:
+                why.append("reaches into the cell of %s, which %s" % (sorted(reached & shadowed), "is shadowed by " + h if op != "insert" else "is not the scope inserted into"))
+            if must_reach is not None and must_reach not in reached:
+                why.append("never reaches the cell of the innermost holder %s" % must_reach)
+            if op == "entry" and entries != {h or "self"}:
+                why.append("hands out an entry of %s (expected the map of %s)" % (sorted(entries), h or "self"))
             if want_ret is not None:
                 known = {(v, s) for (v, s) in rets if v != "?"}
-                okk = okk and known <= want_ret and (known or op in ("remove",))
+                if not (known <= want_ret and (known or op in ("remove",))):
+                    why.append("yields %s (expected %s)" % (sorted(map(str, rets)), sorted(map(str, want_ret))))
             panics_ok = op in ("take", "borrow", "borrow_mut", "get_value", "borrow_value", "borrow_value_mut") and placement == "absent"
-            if op == "insert" and want_ret is None:
-                want_ret = {("Some", None)} if "self" in HOLDERS[placement] else {("None", None)}
-            okk = okk and ("return" in ends or panics_ok) and ("limit" not in ends)
-            ctx.check(okk, "C01.R2", fn.key, "placement:" + placement,
-                      "with T %s, %s applies %s and yields %s (ends %s); a stack of typed maps applies %s%s"
-                      % (PLACEMENT_TEXT[placement], op, sorted(effects), sorted(map(str, rets)), sorted(ends), sorted(want_eff),
-                         (" and yields %s" % sorted(map(str, want_ret))) if want_ret is not None else ""),
-                      detail="effects=%s result=%s" % (sorted(effects), sorted(map(str, rets))), loc=fn.loc())
+            if not (("return" in ends or panics_ok) and ("limit" not in ends)):
+                why.append("ends %s" % sorted(ends))
+            ctx.check(not why, "C01.R2", fn.key, "placement:" + placement,
+                      "with T %s, %s %s; a stack of typed maps resolves to the innermost holder and inserts into the innermost scope" % (PLACEMENT_TEXT[placement], op, "; ".join(why)),
+                      detail="changes=%s reached=%s result=%s" % (sorted(changes), sorted(reached), sorted(map(str, rets))), loc=fn.loc())
     ctx.count("placement_evaluations", n)
 
 
